@@ -567,6 +567,11 @@ class World:
         endpoints.garbage_collect(self.tm_env.endpoints_dir)
         self._spec_check(op, exp, 'gc', pre=pre)
 
+    def op_spec_init(self, op):
+        pre = dict(self.spec_ref)
+        self.tm_env.endpoints.initialize()
+        self._spec_check(op, {}, 'init', pre=pre)
+
     def op_hs_register(self, op):
         """What sproc nodeinfo / tickets / keytabs do at start-up: remove the
         specs of earlier incarnations (by pattern, no owner), add their own
@@ -764,7 +769,8 @@ class World:
                 del self.req[rid]
         held_by = {}
         for ip, rid in sorted(vips.items()):
-            if rid in held_by and rid in live and not self.faulted:
+            if rid in held_by and rid in live and not (
+                    self.faulted or self.seam.failed or self.seam.crashed):
                 self.fail('C14:netsvc-request-holds-two-ips' + (
                     ':id-requested-again-before-its-delete-was-processed'
                     if rid in self.raced else ''),
@@ -1109,7 +1115,7 @@ C14_WEIGHTS = [
     ('rule_create', 10), ('rule_unlink', 8), ('rule_gc', 4),
     ('rule_init', 0.3),
     ('spec_create', 10), ('spec_unlink', 6), ('spec_unlink_all', 5),
-    ('spec_gc', 4), ('hs_register', 2), ('hs_die', 1),
+    ('spec_gc', 4), ('spec_init', 0.3), ('hs_register', 2), ('hs_die', 1),
     ('net_put', 9), ('net_del', 5), ('svc_step', 10), ('svc_crash', 2),
     ('svc_start', 5), ('advance', 1),
 ]
@@ -1357,6 +1363,9 @@ class Generator:
         return op
 
     def g_spec_gc(self, world):
+        return {'ord': self.order()}
+
+    def g_spec_init(self, world):
         return {'ord': self.order()}
 
     def g_hs_register(self, world):
@@ -1671,7 +1680,8 @@ class NetSim(enginemod.Engine):
         return out
 
     def quick_runs(self, prop):
-        return 8000
+        # ~10 s (C14) / ~13 s (C16) of CPU per core on 16 cores
+        return 8000 if prop == 'C14' else 6400
 
     def make_config(self, prop, tier, rng):
         return make_config(prop, tier, rng)
